@@ -41,7 +41,7 @@ ASSUMPTIONS = [
 RULE = ("one case = one generated SMILES x one build path (init_smiles forced, init_organic_smiles forced, Molecule constructor; plus explicit charge/mult variants). "
         "SMILES: every special string of each input class (single atoms, >=8-membered rings, metals with one- and two-letter symbols and odd/even electron counts, "
         "9-coordinate centres with implicit/bracket/explicit hydrogens (builder failure), quadruple '$' bonds, fused/aromatic rings, biphenyl linkers, Kekule rings, "
-        "charged, radicals incl. odd poly-radical, tetrahedral and double-bond stereo incl. marks on non-stereocentres, atom classes, explicit [H]) plus random template x substituent "
+        "charged, radicals incl. odd poly-radical, tetrahedral and double-bond stereo incl. marks on non-stereocentres and three-coordinate S/P lone-pair centres in both hands, atom classes, explicit [H]) plus random template x substituent "
         "combinations; a case is non-trivial when the molecule has >1 atom; distinct by (SMILES, path, charge, mult)")
 
 SLICE = ["C02/Model.v", "C02/Lemmas.v", "C02/Props.v", "C02/Corr.v", "gen/C02_Gen.v"]
@@ -85,7 +85,16 @@ SPECIALS = [
     ("[Mo]$[Mo]", ["metal", "quadruple"]),
     ("Cl[Re-](Cl)(Cl)(Cl)$[Re-](Cl)(Cl)(Cl)Cl", ["metal", "quadruple", "charged"]),
     ("CC(=O)O[Cr]$[Cr]OC(C)=O", ["metal", "quadruple"]),
-    # ---- thorough tier continues (quick takes the first 28) ----
+    # three-coordinate lone-pair stereocentres (sulfoxide, phosphine, sulfonium)
+    ("C[S@](=O)CC", ["tet-stereo", "lone-pair-centre"]),
+    ("C[P@@](CC)c1ccccc1", ["tet-stereo", "lone-pair-centre", "aromatic"]),
+    ("C[S@+](CC)CCC", ["tet-stereo", "lone-pair-centre", "charged"]),
+    # ---- thorough tier continues (quick takes the first 31) ----
+    ("C[S@@](=O)CC", ["tet-stereo", "lone-pair-centre"]), ("C[P@](CC)c1ccccc1", ["tet-stereo", "lone-pair-centre", "aromatic"]),
+    ("C[S@@+](CC)CCC", ["tet-stereo", "lone-pair-centre", "charged"]), ("C[S@](=O)c1ccccc1", ["tet-stereo", "lone-pair-centre", "aromatic"]),
+    ("C[S@@](=O)c1ccccc1", ["tet-stereo", "lone-pair-centre", "aromatic"]), ("C[P@](=O)(CC)c1ccccc1", ["tet-stereo"]),
+    ("C[P@@](=O)(CC)c1ccccc1", ["tet-stereo"]), ("CC[S@](=O)C=C", ["tet-stereo", "lone-pair-centre"]), ("C[P@](CC)CCC", ["tet-stereo", "lone-pair-centre"]),
+    ("C[P@@](CC)C=C", ["tet-stereo", "lone-pair-centre"]), ("C[N@+](CC)(CCC)C=C", ["tet-stereo", "charged"]), ("C[S@@+](CC)c1ccccc1", ["tet-stereo", "lone-pair-centre", "charged", "aromatic"]),
     ("C[W](C)(C)(C)C", ["metal", "metal-1letter", "odd-electrons"]), ("[K]", ["metal", "metal-1letter", "single-atom", "odd-electrons"]),
     ("[V]", ["metal", "metal-1letter", "single-atom", "odd-electrons"]), ("[W]", ["metal", "metal-1letter", "single-atom"]),
     ("[Y]", ["metal", "metal-1letter", "single-atom", "odd-electrons"]), ("C[K]", ["metal", "metal-1letter"]), ("Cl[Y]Cl", ["metal", "metal-1letter", "odd-electrons"]),
@@ -112,7 +121,7 @@ SPECIALS = [
     ("[CH3:1]C(=O)[OH:2]", ["class"]), ("[CH2:7]=O", ["class"]), ("c1cc[cH:4]cc1", ["class", "aromatic"]),
     ("CS(=O)(=O)C", []), ("CP(C)C", []), ("C#N", []), ("CC#CC", []), ("[O-][N+](=O)c1ccccc1", ["charged", "aromatic"]), ("C[NH3+]", ["charged"]),
 ]
-N_QUICK_SPECIALS = 28
+N_QUICK_SPECIALS = 31
 
 TEMPLATES = [
     ("{R}C(=O)O", []), ("{R}C#N", []), ("{R}C(=O)N{S}", []), ("c1ccc({R})cc1", ["aromatic"]), ("{R}c1ccc({S})cc1", ["aromatic"]),
